@@ -2,8 +2,15 @@
 
 Correspondence: outcome *kinds* of real parse + calls vs. the model on the extreme-number,
 deep-nesting and unusual-Unicode streams.  Oracle: the exception type observed on the real
-code.  The model's `crash` outcome marks the arithmetic region of the known finding."""
+code.  The model's `crash` outcome marks the arithmetic region of the known finding.
+
+Depth family (direct oracle only, no model): the property bounds the nesting of *values* by the
+interpreter's recursion budget, but quantifies over ALL metaschema-valid schemas.  Schemas nested
+through every sub-schema keyword, and literals under const/enum/default, are built at depths on both
+sides of (and far beyond) `sys.getrecursionlimit()` and given to both public entry points; the only
+admissible outcomes are "returned" and "raised an error of the schema-parse family"."""
 import random
+import sys
 
 from harness import core
 from harness.framework import Outcome, jsonable
@@ -13,7 +20,8 @@ ID = "C10"
 TIE_MODULES = ["StathamModel.Tie"]
 ASSUMPTIONS = [
     "patterns are valid in Python's regex dialect (generated from a fixed pool)",
-    "nesting depth stays below 150 levels (inside the interpreter's default recursion budget)",
+    "nesting depth of values, and of schemas that are compared with the model, stays below 150 levels (inside the interpreter's default recursion budget)",
+    "schemas and literals nested deeper than that (up to 12x the recursion limit) are judged by the exception type of parse_element()/parse() only; the model has no recursion budget, so they are not part of the correspondence; elements parsed from them are not called",
     "lone surrogates are excluded (not representable as Lean Char)",
 ]
 N_SCHEMAS = {"quick": 1200, "thorough": 30000}
@@ -111,6 +119,181 @@ def deep(n, leaf=1):
     return v
 
 
+# --- depth: the nesting of a *schema* is not bounded by the property (only that of values is).  A schema is described by a small recipe
+# (run-length encoded chain of wrappers around a leaf, optionally a deep literal in the leaf), so that a case stays printable and
+# replayable however deep the document it stands for; the document itself is built iteratively and never copied, printed or compared.
+# Class-building levels get a title of their own (`i` = level, counted from the leaf): hundreds of nested classes that share one title
+# make the parser's de-duplication compare them pairwise, deeply - seconds per document, and not what this family is about.
+DEEP_WRAPPERS = {
+    "items": lambda s, i: {"items": s},
+    "items-typed": lambda s, i: {"type": "array", "items": s},
+    "items-type-list": lambda s, i: {"type": ["array", "null"], "items": s},
+    "items-tuple": lambda s, i: {"items": [{"type": "string"}, s]},
+    "additionalItems": lambda s, i: {"items": [{}], "additionalItems": s},
+    "contains": lambda s, i: {"contains": s},
+    "properties": lambda s, i: {"properties": {"p": s}},
+    "properties-object": lambda s, i: {"type": "object", "title": f"Deep{i}", "properties": {"p": s}, "required": ["p"]},
+    "properties-second": lambda s, i: {"type": "object", "title": f"Wide{i}", "properties": {"a": {"type": "integer"}, "p": s}},
+    "patternProperties": lambda s, i: {"patternProperties": {"^a": s}},
+    "additionalProperties": lambda s, i: {"additionalProperties": s},
+    "additionalProperties-object": lambda s, i: {"type": "object", "title": f"Open{i}", "additionalProperties": s},
+    "propertyNames": lambda s, i: {"propertyNames": s},
+    "dependencies": lambda s, i: {"dependencies": {"a": s}},
+    "not": lambda s, i: {"not": s},
+    "anyOf": lambda s, i: {"anyOf": [s]},
+    "oneOf": lambda s, i: {"oneOf": [{"type": "string"}, s]},
+    "allOf": lambda s, i: {"allOf": [s, {"minimum": 0}]},
+    "allOf-typed": lambda s, i: {"type": "array", "allOf": [{"items": s}]},
+}
+DEEP_LEAVES = [True, False, {}, {"type": "string"}, {"type": "integer", "minimum": 0}, {"type": "object", "title": "Leaf"}, {"type": ["string", "null"]}, {"enum": [1, "a"]}]
+DEEP_LITERAL_KEYS = ("const", "enum", "default")
+DEEP_VALUE_SHAPES = ("list", "dict", "alternating", "wide-list")
+
+
+def deep_value(shape, depth, atom):
+    v = atom
+    for i in range(depth):
+        if shape == "list":
+            v = [v]
+        elif shape == "dict":
+            v = {"k": v}
+        elif shape == "wide-list":
+            v = [0, "s", v, None]
+        else:
+            v = [v] if i % 2 == 0 else {"k": v}
+    return v
+
+
+def build_deep(recipe):
+    """the schema document a recipe stands for; built bottom-up in a loop (fresh on every call: the parser rewrites its input in place)"""
+    leaf = recipe["leaf"]
+    s = leaf if isinstance(leaf, bool) else json_copy(leaf)
+    lit = recipe.get("literal")
+    if lit:
+        if isinstance(s, bool):
+            s = {}
+        v = deep_value(lit["shape"], lit["depth"], lit["atom"])
+        s[lit["key"]] = [v, 1] if lit["key"] == "enum" else v
+    level = 0
+    for pattern, count in reversed(recipe["wrappers"]):
+        wraps = [DEEP_WRAPPERS[n] for n in reversed(wrapper_names(pattern))]
+        for _ in range(count):
+            for wrap in wraps:
+                level += 1
+                s = wrap(s, level)
+    if recipe.get("in_definitions"):
+        s = {"title": "Doc", "definitions": {"d": s}}
+    return s
+
+
+def json_copy(x):
+    if isinstance(x, dict):
+        return {k: json_copy(v) for k, v in x.items()}
+    if isinstance(x, list):
+        return [json_copy(v) for v in x]
+    return x
+
+
+def wrapper_names(pattern):
+    """an entry of recipe["wrappers"] is [name, count] or [[name, ...], count]: the pattern, outermost first, repeated `count` times"""
+    return [pattern] if isinstance(pattern, str) else list(pattern)
+
+
+def recipe_depth(recipe):
+    return sum(len(wrapper_names(p)) * c for p, c in recipe["wrappers"]), (recipe.get("literal") or {}).get("depth", 0)
+
+
+def parse_outcome(recipe, entry):
+    """('returned' | 'family:<name>' | 'escaped:<name>', message) of one public parse entry point on the recipe's document"""
+    from statham.schema import parser
+    from statham.schema.exceptions import SchemaParseError
+    doc = build_deep(recipe)
+    fn = parser.parse if entry == "parse" else parser.parse_element
+    try:
+        with core.warnings.catch_warnings():
+            core.warnings.simplefilter("ignore")
+            fn(doc)
+        return "returned", ""
+    except SchemaParseError as exc:
+        return "family:" + type(exc).__name__, ""
+    except (KeyboardInterrupt, SystemExit):
+        raise
+    except BaseException as exc:  # noqa: BLE001  (RecursionError, MemoryError, ... : exactly what must not escape)
+        return "escaped:" + type(exc).__name__, str(exc)[:120]
+
+
+def depth_band(d, limit):
+    if d == 0:
+        return "0"
+    for frac, label in ((0.15, "<0.15L"), (0.5, "<0.5L"), (1, "<1L"), (2, "<2L"), (5, "<5L")):
+        if d < frac * limit:
+            return label
+    return ">=5L"
+
+
+def random_depth(rng, limit):
+    """depths on both sides of every threshold k*limit/frames-per-level may sit at: from the depth the stream stops at, to far beyond the budget"""
+    lo, hi = rng.choice([(limit // 8, limit // 3), (limit // 3, limit), (limit, 2 * limit), (2 * limit, 5 * limit), (5 * limit, 12 * limit)])
+    return rng.randint(lo, hi)
+
+
+def depth_recipes(rng, n_random, limit):
+    names = sorted(DEEP_WRAPPERS)
+    ladder = [limit // 6, limit // 3, limit // 2, limit - 1, limit + limit // 2, 3 * limit, 8 * limit]
+    # 1. one keyword all the way down, at every rung
+    for name in names:
+        for d in ladder:
+            yield {"wrappers": [[name, d]], "leaf": rng.choice(DEEP_LEAVES)}
+    # 2. literals: a shallow schema whose const / enum / default holds a deep JSON value (at the top, and under a few keywords)
+    for key in DEEP_LITERAL_KEYS:
+        for shape in DEEP_VALUE_SHAPES:
+            for d in ladder:
+                yield {"wrappers": [], "leaf": {}, "literal": {"key": key, "shape": shape, "depth": d, "atom": rng.choice([1, "x", None])}}
+    # 3. random: mixed chains (a different keyword at every level, or long runs), any leaf, sometimes with a deep literal, sometimes in definitions
+    for _ in range(n_random):
+        d = random_depth(rng, limit)
+        style = rng.choice(["mixed", "runs", "shallow+literal", "deep+literal"])
+        if style == "mixed":
+            pattern = [rng.choice(names) for _ in range(rng.randint(2, 8))]
+            wrappers = [[pattern, max(1, d // len(pattern))]]
+        elif style == "runs":
+            wrappers, left = [], d
+            while left > 0:
+                c = min(left, rng.randint(1, max(1, d // 3)))
+                wrappers.append([rng.choice(names), c])
+                left -= c
+        elif style == "shallow+literal":
+            wrappers = [[rng.choice(names), 1] for _ in range(rng.randint(1, 4))]
+        else:
+            wrappers = [[rng.choice(names), rng.randint(1, d)]]
+        recipe = {"wrappers": wrappers, "leaf": rng.choice(DEEP_LEAVES)}
+        if style.endswith("literal"):
+            recipe["literal"] = {"key": rng.choice(DEEP_LITERAL_KEYS), "shape": rng.choice(DEEP_VALUE_SHAPES), "depth": random_depth(rng, limit), "atom": rng.choice([1, "x", None, 1.5])}
+        if rng.random() < 0.2:
+            recipe["in_definitions"] = True
+        yield recipe
+
+
+def check_depth(recipe, entries, out, stats, limit):
+    sd, ld = recipe_depth(recipe)
+    for entry in entries:
+        case = {"deep_schema": recipe, "entry": entry}
+        out.note_case(case, True)
+        outcome, msg = parse_outcome(recipe, entry)
+        bump(stats, "depth-" + entry + "-" + outcome.split(":")[0])
+        bump(stats, "depth-outcome-" + outcome)
+        bump(stats, "depth-schema-band-" + depth_band(sd, limit))
+        if ld:
+            bump(stats, "depth-literal-band-" + depth_band(ld, limit))
+            bump(stats, "depth-literal-" + recipe["literal"]["key"] + "-" + recipe["literal"]["shape"])
+        for name in sorted({n for p, _ in recipe["wrappers"] for n in wrapper_names(p)}):
+            bump(stats, "depth-via-" + name)
+        if outcome.startswith("escaped:"):
+            what = (f"{entry}() on an acyclic, metaschema-valid schema nested {sd} sub-schema levels" + (f" with a {recipe['literal']['key']} literal nested {ld} levels" if ld else "")
+                    + f" (recursion limit {limit}): {outcome[8:]} escaped: {msg} (neither an element nor an error of the schema-parse family)")
+            out.failures.append({"case": case, "what": what, "finding": None})
+
+
 def bump(stats, key):
     stats[key] = stats.get(key, 0) + 1
 
@@ -198,7 +381,9 @@ def run(ctx, scale=1.0):
     out = Outcome()
     out.rule = ("extreme stream: schemas and values from the generator in extreme mode (2^53±1, 10^30, 10^400, 1e308, 5e-324, "
                 "huge/tiny multipleOf), deep nesting (<=150), unusual Unicode strings and keys, plus the focused families; "
-                "a case is a (schema, value) pair, all are counted non-trivial; distinct by SHA-256")
+                "a case is a (schema, value) pair, all are counted non-trivial; distinct by SHA-256; depth family: acyclic schemas nested L/8..12L levels "
+                "(L = recursion limit) through every sub-schema keyword and const/enum/default literals nested as deep, given to parse_element() and parse(): "
+                "a case is (recipe, entry point), outcome must be 'returned' or an error of the schema-parse family")
     stats = {}
     drv = core.Driver()
     try:
@@ -281,10 +466,16 @@ def run(ctx, scale=1.0):
             strings = [t.replace("{d}", d) for t in templates for d in odd] + UNICODE + ["", "0", "1.2.3", "1.2.3.4", "256.1.1.1", "01.1.1.1"]
             for chunk in range(0, len(strings), 40):
                 probe_format(fmt, strings[chunk:chunk + 40], out, stats)
+        # schemas (and literals) nested up to and far beyond the interpreter's recursion budget, through both public entry points
+        limit = sys.getrecursionlimit()
+        for k, recipe in enumerate(depth_recipes(rng, int((150 if ctx["tier"] == "quick" else 3000) * scale), limit)):
+            # both public entry points; in the quick tier they take turns (a document below the budget costs a full parse)
+            both = ["parse_element", "parse"] if ctx["tier"] == "thorough" else [["parse_element", "parse"][k % 2]]
+            check_depth(recipe, ["parse"] if recipe.get("in_definitions") else both, out, stats, limit)
     finally:
         drv.close()
     # report the smallest failing input first (stable: equal sizes keep the order they were found in)
-    out.failures.sort(key=lambda f: len(repr(jsonable(f.get("case")))))
+    out.failures.sort(key=lambda f: (len(repr(jsonable(f.get("case")))), sum(recipe_depth(f["case"]["deep_schema"])) if "deep_schema" in (f.get("case") or {}) else 0))
     out.stats = stats
     return out
 
@@ -316,5 +507,7 @@ def replay(payload):
     case = payload.get("failure", {}).get("case")
     if not case:
         return True
+    if "deep_schema" in case:
+        return not parse_outcome(case["deep_schema"], case["entry"])[0].startswith("escaped:")
     real = _observe(case["schema"], case.get("value", {"np": 1}))
     return real["r"] in ("ok", "reject", "typeError") or real["r"].startswith("parse:") and not real["r"].startswith("parse:other") and real["r"] != "parse:recursion"
